@@ -4,6 +4,7 @@ import (
 	"bytes"
 	"fmt"
 	"net"
+	"sync/atomic"
 	"time"
 
 	"github.com/refraction-networking/conjure/pkg/transports"
@@ -138,11 +139,13 @@ func (Transport) WrapConnection(data *bytes.Buffer, c net.Conn, phantom net.IP, 
 			return nil, nil, fmt.Errorf("failed to create server factory: %w", err)
 		}
 
-		mc := transports.PrependToConn(c, data)
+		guard := &handshakeGuard{Conn: c}
+		mc := transports.PrependToConn(guard, data)
 		wrapped, err := factory.WrapConn(mc)
 		if err != nil {
 			return nil, nil, err
 		}
+		guard.handshakeDone.Store(true)
 
 		return r, &deadlineConn{Conn: wrapped, underlying: c}, nil
 	}
@@ -157,6 +160,47 @@ func (Transport) WrapConnection(data *bytes.Buffer, c net.Conn, phantom net.IP, 
 	// The only time we'll make it here is if there are no obfs4 registrations
 	// for the given phantom.
 	return nil, nil, transports.ErrNotTransport
+}
+
+// handshakeGuard is what the obfs4 library gets in place of the client connection until its server
+// handshake has succeeded. Finding the mark only shows that the flight was made for this registration;
+// when the handshake then fails (MAC or epoch mismatch, replay) the library replaces the connection's
+// deadline with its own 30-90 second one, discards a random number of bytes and closes the connection
+// itself, which can be milliseconds after the flight arrived. The station owns the connection: it is
+// closed by the connection handler at the classification deadline like any other connection that did
+// not authenticate, so until the handshake is done the library can neither close it nor move its
+// deadlines.
+type handshakeGuard struct {
+	net.Conn
+	handshakeDone atomic.Bool
+}
+
+func (g *handshakeGuard) Close() error {
+	if !g.handshakeDone.Load() {
+		return nil
+	}
+	return g.Conn.Close()
+}
+
+func (g *handshakeGuard) SetDeadline(t time.Time) error {
+	if !g.handshakeDone.Load() {
+		return nil
+	}
+	return g.Conn.SetDeadline(t)
+}
+
+func (g *handshakeGuard) SetReadDeadline(t time.Time) error {
+	if !g.handshakeDone.Load() {
+		return nil
+	}
+	return g.Conn.SetReadDeadline(t)
+}
+
+func (g *handshakeGuard) SetWriteDeadline(t time.Time) error {
+	if !g.handshakeDone.Load() {
+		return nil
+	}
+	return g.Conn.SetWriteDeadline(t)
 }
 
 // deadlineConn gives the wrapped obfs4 connection working deadlines. The obfs4 library's conn
